@@ -43,7 +43,7 @@ pub unsafe extern "C" fn clock_gettime(clk: libc::clockid_t, ts: *mut libc::time
     libc::syscall(libc::SYS_clock_gettime, clk, ts) as libc::c_int
 }
 
-fn set_clock_ms(ms: Option<u128>) {
+pub fn set_clock_ms(ms: Option<u128>) {
     match ms {
         None => CLOCK_SEC.store(i64::MIN, Ordering::SeqCst),
         Some(ms) => {
@@ -442,6 +442,9 @@ fn sync_write(op: &Value) -> Value {
             ok(json!({"dropped": true}))
         }
         _ => {
+            if let Some(c) = opt_s(op, "clock_at_commit") {
+                set_clock_ms(c.parse::<u128>().ok());
+            }
             let mut v = res_sri(w.commit());
             if v["r"] == "err" {
                 v["phase"] = json!("commit");
@@ -499,6 +502,10 @@ fn sync_reader(op: &Value) -> Value {
                 v["got"] = bytes_json(&got);
                 return v;
             }
+        }
+        if bufs.iter().all(|b| *b == 0) && i >= 4 {
+            // only zero-length buffers were offered: EOF cannot be observed, stop without the final check
+            return ok(json!({"got": bytes_json(&got), "checked": false}));
         }
         if i > 10_000_000 {
             return json!({"r":"hang","msg":"reader never reached EOF"});
